@@ -127,7 +127,7 @@ pub fn run(ctx: &Ctx, reg: &Registry) -> i32 {
         let progress = argv.get(pos + 2).cloned().unwrap_or_else(|| "/dev/null".into());
         return child(reg, mib, &progress);
     }
-    let n_cases: u64 = ctx.tier.pick(50, 2500);
+    let n_cases: u64 = ctx.tier.pick(300, 5000);
     let n_rand: u64 = ctx.tier.pick(4, 24);
     let mut acc = ctx.par(|shard, n| {
         let mut acc = Acc::new();
@@ -164,6 +164,8 @@ pub fn run(ctx: &Ctx, reg: &Registry) -> i32 {
     });
     // adversarial child processes: depth-128 nestings on 2 MiB and 8 MiB stacks
     let exe = std::env::current_exe().ok();
+    // (both children run concurrently; each is single-threaded on its own small stack)
+    let mut children = vec![];
     for mib in [2usize, 8] {
         let Some(exe) = &exe else {
             acc.inconclusive("cannot locate own executable for the child run");
@@ -172,7 +174,15 @@ pub fn run(ctx: &Ctx, reg: &Registry) -> i32 {
         let wdir = ctx.root.join("work");
         let _ = std::fs::create_dir_all(&wdir);
         let progress = wdir.join(format!("c12-progress-{}-{}mib.txt", std::process::id(), mib));
-        let out = std::process::Command::new(exe).args(["C12", "--tier", ctx.tier.name(), "--child", &mib.to_string(), progress.to_str().unwrap()]).output();
+        let child = std::process::Command::new(exe)
+            .args(["C12", "--tier", ctx.tier.name(), "--child", &mib.to_string(), progress.to_str().unwrap()])
+            .stdout(std::process::Stdio::piped())
+            .stderr(std::process::Stdio::piped())
+            .spawn();
+        children.push((mib, progress, child));
+    }
+    for (mib, progress, child) in children {
+        let out = child.and_then(|c| c.wait_with_output());
         match out {
             Err(e) => acc.inconclusive(format!("child process could not be started: {e}")),
             Ok(o) => {
